@@ -228,7 +228,7 @@ const ruleC12 = "independently generated per-log histories over 2-5 logs (some s
 
 var profC12 = vlib.Profile{
 	Prop: "C12", MinLogs: 2, MaxLogs: 5, MinOps: 6, MaxOps: 40,
-	Storages: []string{"mem", "sql"}, MaxJump: 200, OtherLogPct: 0, Decorate: 10, SharedKeys: true, NoReplay: true,
+	Storages: []string{"mem", "sql"}, MaxJump: 200, OtherLogPct: 0, Decorate: 10, SharedKeys: true, NoReplay: true, ECDSAPct: 20,
 	WKeySets: [][]vlib.WKSpec{vlib.LegacyWKeys},
 	Weights:  map[string]int{"grow": 40, "refresh": 8, "fork": 10, "wrongold": 6, "badproof": 8, "garbage": 4, "wrongkey": 6, "wrongorigin": 8, "smaller": 3, "decorated": 4, "mismatch": 3},
 }
@@ -360,7 +360,7 @@ const ruleC16 = "generated histories over 2-4 logs, both storages; after every r
 
 var profC16 = vlib.Profile{
 	Prop: "C16", MinLogs: 2, MaxLogs: 4, MinOps: 3, MaxOps: 20,
-	Storages: []string{"mem", "sql"}, MaxJump: 200, OtherLogPct: 50, Decorate: 25, SharedKeys: true, NonCanonPct: 5, MaxJunkSigs: 90,
+	Storages: []string{"mem", "sql"}, MaxJump: 200, OtherLogPct: 50, Decorate: 25, SharedKeys: true, NonCanonPct: 5, MaxJunkSigs: 90, ECDSAPct: 20,
 	Weights: map[string]int{"grow": 40, "refresh": 10, "fork": 8, "wrongold": 6, "badproof": 10, "garbage": 6, "wrongkey": 8, "wrongorigin": 4, "unknownlog": 3, "smaller": 3, "decorated": 8, "zero": 6},
 }
 
